@@ -2230,6 +2230,70 @@ def b_map(interp, args, kwargs):
                   for x in interp.iterate(args[1])])
 
 
+def _dc_fields(interp, obj):
+    if isinstance(obj, Obj) and obj.cls is not None:
+        names, _o = obj.cls.lookup('__dataclass_fields__')
+        if isinstance(names, K):
+            return list(names.v)
+    return None
+
+
+def _dc_deep(interp, v, as_tuple):
+    """dataclasses.asdict / astuple recurse into dataclass instances, lists,
+    tuples and dicts (copies of everything else are the values
+    themselves for the immutable kinds the repo stores)."""
+    names = _dc_fields(interp, v)
+    if names is not None:
+        items = [(n, _dc_deep(interp, interp.get_attr(v, n), as_tuple))
+                 for n in names]
+        if as_tuple:
+            return TupleV([x for _n, x in items])
+        return DictV([(K(n), x) for n, x in items])
+    if isinstance(v, IterV):
+        raise Inexact('iterator inside a dataclass')
+    if isinstance(v, ListV):
+        return ListV([_dc_deep(interp, x, as_tuple) for x in v.items])
+    if isinstance(v, TupleV):
+        return TupleV([_dc_deep(interp, x, as_tuple) for x in v.items])
+    if isinstance(v, DictV):
+        return DictV([(k, _dc_deep(interp, x, as_tuple))
+                      for k, x in zip(v.keys, v.vals)])
+    if isinstance(v, (K, T)):
+        return v
+    raise Inexact('dataclasses.asdict on a field holding %s' %
+                  type(v).__name__)
+
+
+def b_dc_asdict(interp, args, kwargs):
+    if len(args) != 1 or kwargs or _dc_fields(interp, args[0]) is None:
+        return NotImplemented
+    return _dc_deep(interp, args[0], False)
+
+
+def b_dc_astuple(interp, args, kwargs):
+    if len(args) != 1 or kwargs or _dc_fields(interp, args[0]) is None:
+        return NotImplemented
+    return _dc_deep(interp, args[0], True)
+
+
+def b_dc_replace(interp, args, kwargs):
+    if len(args) != 1:
+        return NotImplemented
+    names = _dc_fields(interp, args[0])
+    if names is None:
+        return NotImplemented
+    kw = {n: interp.get_attr(args[0], n) for n in names}
+    for k, v in kwargs.items():
+        if k not in kw:
+            raise AbsRaise(T('exc', 'TypeError', 'unexpected field'))
+        kw[k] = v
+    return interp.call(args[0].cls, [], kw)
+
+
+def b_dc_fields(interp, args, kwargs):
+    raise Inexact('dataclasses.fields() is not modelled')
+
+
 def b_partial(interp, args, kwargs):
     """functools.partial(f, *a, **kw): a callable that prepends / merges."""
     if not args:
@@ -2650,6 +2714,8 @@ BUILTINS = {
     'chr': b_pure('chr'), 'abs': b_pure('abs'), 'repr': b_pure('repr'),
     'math.ceil': b_math_ceil, 'pow': b_pow, 'map': b_map,
     'functools.reduce': b_reduce, 'functools.partial': b_partial,
+    'dataclasses.asdict': b_dc_asdict, 'dataclasses.astuple': b_dc_astuple,
+    'dataclasses.replace': b_dc_replace, 'dataclasses.fields': b_dc_fields,
     'collections.namedtuple': b_namedtuple,
     'functools.wraps': b_wraps, 'functools.update_wrapper': b_update_wrapper, 'divmod': b_divmod,
     'sys.exc_info': b_exc_info, 'sys.exception': b_sys_exception, 'format': b_format,
